@@ -352,18 +352,104 @@ def run(cx):
             if not any(isinstance(a, ast.If) and "_is_list_type(existing_type" in norm(a.test) for a in pm.ancestors(n)):
                 compared = True
     r.check(compared, "_handle_assignment_ast/scalar-retype-unchecked", (pm, ha), "the first assignment fixes a scalar's C++ type and later assignments of another label are not compared with it: `x = 1` then `x = 1.5` stores 1.5 in `int x`")
-    # promotion merge across branches
-    txt = norm(rec)
-    merges = "inferred[name] =" in txt and ("_merge" in txt or "join" in txt or "float" in txt)
-    r.check(merges, "_promote_branch_decls/first-branch-type-wins", (pm, rec), "a name assigned in several branches is hoisted with the label of the first branch only: `if c: y = 1` / `else: y = 1.5` declares `int y`")
+    # promotion merge across branches: _promote_branch_decls evaluated on two/three branch scopes that assign the same new
+    # name with every ordered combination of labels; the hoisted label must hold every branch's value
+    for combo in itertools.chain(itertools.permutations(NUM + ["String"], 2), itertools.permutations(NUM, 3)):
+        j = join(*combo)
+        if j is None:
+            continue
+        for with_else in (False, True):
+            scopes = [({"var_types": {"x": lab_}, "var_declared": {"x"}, "_base_declared": set()}, []) for lab_ in combo]
+            parent = {}
+            try:
+                out = it().call(pb, [scopes[:-1], scopes[-1], parent, "loop", 1] if with_else else [scopes, None, parent, "loop", 1])
+            except dl.Unsupported as e:
+                raise AnalysisError(f"_promote_branch_decls left the evaluable subset: {e}")
+            got = parent.get("var_types", {}).get("x") if out.kind == "return" else None
+            cpp_got = parent.get("_promotion_cpp_types", {}).get("x")
+            ok = out.kind == "raise" or (got is not None and geq(got, j))
+            if combo[0] == j or (RANK.get(combo[0], 9) >= max(RANK.get(c_, 9) for c_ in combo)):
+                key = f"_promote_branch_decls/hoist-label[{'-then-'.join(combo)}]"
+            else:
+                key = "_promote_branch_decls/first-branch-type-wins"
+            r.check(ok, key, (pm, rec), f"a name assigned {' / '.join(combo)} in successive branches{' (last one the else)' if with_else else ''} is hoisted as {got!r} ({cpp_got}); it must hold {j}")
+            if ok and out.kind == "return" and got is not None:
+                want_cpp = it().call(cpp, [got]).value
+                r.check(cpp_got == want_cpp, f"_promote_branch_decls/hoist-cpp-type[{'-then-'.join(combo)}]", (pm, pb), f"label {got} but cached C++ type {cpp_got}")
 
 
-    # ---- C02-EMIT ----------------------------------------------------------------------------
-    from .. import pe, cxx
+    from .. import pe, cxx, l2
     from . import c09
     em = mod("transpile/emitter.py")
     cx.consulted(em)
     cls, _f = pe.ir_classes()
+
+    # ---- C02-ACCESSOR ------------------------------------------------------------------------
+    r = cx.rule("C02-ACCESSOR", "every device accessor call the expression translator accepts (`dev.get_speed()`, `mon.read()`, ...) is given a label whose C++ type holds the C++ type of the translated expression (typed by clang against the sketch that declares the device)", floor=12)
+    import re as _re
+    tce = pm.func("_to_c_expr")
+    tce_emit = pm.funcs.get("_to_c_expr.emit")
+    if tce_emit is None:
+        raise AnalysisError("_to_c_expr.emit vanished")
+    methods = set()
+    for n in walk_local(tce_emit):
+        if isinstance(n, ast.Compare) and isinstance(n.left, ast.Name) and n.left.id == "attr" and len(n.ops) == 1:
+            v = lit.try_ev(n.comparators[0])
+            if isinstance(n.ops[0], ast.Eq) and isinstance(v, str):
+                methods.add(v)
+            elif isinstance(n.ops[0], ast.In) and isinstance(v, (set, frozenset, tuple, list)):
+                methods |= {x for x in v if isinstance(x, str)}
+    methods -= {"append", "remove"}
+    # registry -> device kind (confirmed by reading the declaration handlers of _parse_simple_lines)
+    REG = {"led_names": "Led", "buzzer_names": "Buzzer", "dc_motor_names": "DCMotor", "ultrasonic_names": "Ultrasonic", "button_names": "Button",
+           "servo_names": "Servo", "potentiometer_names": "Potentiometer", "serial_monitors": "SerialMonitor"}
+    regs_read = {lit.try_ev(c.args[0]) for c in walk_local(tce_emit) if isinstance(c, ast.Call) and isinstance(c.func, ast.Attribute) and c.func.attr in ("get", "setdefault") and c.args}
+    extra = {x for x in regs_read if isinstance(x, str) and (x.endswith("_names") or x == "serial_monitors")} - set(REG) - {"button_poll_names"}
+    if extra:
+        raise AnalysisError(f"_to_c_expr reads device registries this rule has no device kind for: {sorted(extra)}")
+    accepted = {}
+    for reg, dev in sorted(REG.items()):
+        for m_ in sorted(methods):
+            ctx_ = {reg: {"dev"}, "potentiometer_pins": {"dev": "A0"}}
+            try:
+                out = dl.Interp(pm, opaque={"ast.parse": ast.parse, "re.fullmatch": _re.fullmatch, "re.sub": _re.sub}).call(tce, [f"dev.{m_}()", {}, ctx_])
+            except dl.Unsupported as e:
+                raise AnalysisError(f"_to_c_expr left the evaluable subset on `dev.{m_}()`: {e}")
+            if out.kind == "return" and isinstance(out.value, str) and out.value:
+                lab_ = it().call(inf, [ast.parse(f"dev.{m_}()", mode="eval").body, {}, {}, {}, {}, {reg: {"dev"}}])
+                accepted.setdefault(dev, []).append((m_, out.value, lab_))
+    if sum(len(v) for v in accepted.values()) < 12:
+        raise AnalysisError(f"only {sum(len(v) for v in accepted.values())} accessor translations found (confirmed: 15)")
+
+    def kind_of(cpp_t):
+        t = (cpp_t or "").replace("const ", "").replace("&", "").strip()
+        if t == "bool":
+            return "bool"
+        if t in ("int", "long", "unsigned int", "unsigned long", "short", "unsigned char", "char", "uint8_t", "size_t"):
+            return "int"
+        if t in ("float", "double"):
+            return "float"
+        if t == "String":
+            return "String"
+        return None
+
+    for dev, rows in sorted(accepted.items()):
+        res = pe.emit_program(setup=[l2.decl_node(dev)], ultrasonic=({"dev"} if dev == "Ultrasonic" else ()))
+        if res.raised or not res.text:
+            raise AnalysisError(f"emit() raises {res.raised} for a lone {dev} declaration")
+        probe = "\nvoid __redu_probe() {\n" + "".join(f"  auto __p{i} = {e};\n" for i, (_m, e, _l) in enumerate(rows)) + "}\n"
+        fns = l2.functions_of(res.text + probe, ["__redu_probe"])
+        if not fns.get("__redu_probe"):
+            raise AnalysisError(f"clang could not type the accessor expressions of {dev}")
+        types = {st["name"]: st.get("type") for st in cxx.all_stmts(fns["__redu_probe"][0]["body"]) if st["k"] == "decl"}
+        for i, (m_, e, lab_) in enumerate(rows):
+            kt = kind_of(types.get(f"__p{i}"))
+            if kt is None:
+                raise AnalysisError(f"accessor `{e}` has C++ type {types.get(f'__p{i}')!r}: not a type this rule classifies")
+            ok = lab_.kind == "return" and ((kt == "String" and lab_.value == "String") or (kt != "String" and lab_.value in RANK and RANK[lab_.value] >= RANK[kt]))
+            r.check(ok, f"_infer_expr_type/accessor[{dev}.{m_}]", (pm, inf), f"`v = dev.{m_}()` translates to `{e}` of C++ type {types.get(f'__p{i}')} but is labelled {lab_!r}: the declaration `{it().call(cpp, [lab_.value]).value if lab_.kind == 'return' else '?'} v` cannot hold it", sample=f"{dev}.{m_}() -> {e} : {types.get(f'__p{i}')} / label {lab_.value if lab_.kind == 'return' else lab_!r}")
+
+    # ---- C02-EMIT ----------------------------------------------------------------------------
     r = cx.rule("C02-EMIT", "the emitter writes the types the parser decided: every function overload is emitted (once) with its own parameter and return types, every declaration with its c_type; the list helper converts elements to the element type only", floor=12)
     S = cls["ReturnStmt"]
     fd = cls["FunctionDef"]
